@@ -6,7 +6,7 @@
    level), [DFuel] an exhausted loop bound (proved unreachable).  The spec calendar steps ONE DAY AT A TIME
    ([next_day]/[prev_day], [shift_days]); it contains no month-length shortcut and no day-number formula. *)
 From Coq Require Import ZArith List Bool.
-From BS Require Import Model.Base Model.Calendar Gen.CalendarTables Proofs.C16.
+From BS Require Import Model.Base Model.Calendar Gen.CalendarTables Proofs.C16 Proofs.C16Float.
 Local Open Scope Z_scope.
 
 (* the validation datetimeNew performs (regenerated from _DATETIME_NEW_ARGS) *)
@@ -69,14 +69,34 @@ Theorem C16_add_sub : forall w n w', dt_add_ms w n = DOk w' -> dt_sub_ms w' w = 
 Proof. exact add_sub_exact. Qed.
 Print Assumptions C16_add_sub.
 
-(* FULL statement not proved (kept visible):
-     Theorem C16_sub_rounding : forall w n w', Z.abs n <= 10^12 -> dt_add_ms w n = DOk w' -> dt_sub_float w' w = Some n.
-   [dt_sub_float] is the binary64 path the code takes ((a-b).total_seconds()*1000, rounded); it is executable and tied to
-   the implementation by the correspondence check, but the for-all statement needs a Flocq rounding-error argument.
-   The proved statement below is about the exact value of the difference. *)
-Theorem C16_sub_rounding_partial : forall w n w', dt_add_ms w n = DOk w' -> dt_sub_ms w' w = n.
-Proof. exact add_sub_exact. Qed.
-Print Assumptions C16_sub_rounding_partial.
+(* ... and the SAME holds on the binary64 path the code actually takes.  [dt_sub_float] is
+     value_round_number((a - b).total_seconds() * 1000, 0):
+   microseconds / 10^6 correctly rounded (int / int), * 1000.0 correctly rounded, + 0.5 (or - 0.5) correctly rounded, int().
+   Proved for ALL w, n in Proofs/C16Float.v by a rounding-error analysis carried out in Z (every binary64 value scaled by
+   2^1074 is an integer; each of the three roundings has relative error <= 2^-53: Proofs/FloatFacts.v, about the standard
+   library's SpecFloat functions themselves, no real numbers, no axioms).
+   The bound proved is |n| <= 10^15 (the statement first wanted had 10^12), and it is implied by the operands being datetimes
+   (second theorem: no bound on n at all).  Without either hypothesis the statement is FALSE: see the last Example. *)
+Theorem C16_sub_rounding : forall w n w',
+  Z.abs n <= 10 ^ 15 -> dt_add_ms w n = DOk w' -> dt_sub_float w' w = Some n.
+Proof. exact sub_float_exact. Qed.
+Print Assumptions C16_sub_rounding.
+
+Theorem C16_sub_rounding_in_range : forall w n w',
+  in_range w = true -> dt_add_ms w n = DOk w' -> dt_sub_float w' w = Some n.
+Proof. exact sub_float_exact_in_range. Qed.
+Print Assumptions C16_sub_rounding_in_range.
+
+(* non-vacuity: a datetime plus one year and one millisecond *)
+Example C16_sub_rounding_nonvacuous :
+  in_range 1700000000000000 = true /\ Z.abs 31536000001 <= 10 ^ 15 /\
+  dt_add_ms 1700000000000000 31536000001 = DOk 1731536000001000 /\
+  dt_sub_float 1731536000001000 1700000000000000 = Some 31536000001.
+Proof. exact sub_float_nonvacuous. Qed.
+(* beyond the datetime range (a difference of 4398076898823855 ms, about 139 000 years) the float path is off by one *)
+Example C16_sub_rounding_refuted_beyond_range :
+  dt_sub_float (4398076898823855 * 1000) 0 = Some 4398076898823856.
+Proof. exact sub_float_refuted_beyond_range. Qed.
 
 (* clause 4 — ISO round trip for EVERY pair of offset functions (the process time zone is a parameter) *)
 Theorem C16_iso_roundtrip : forall (off_local off_utc : Z -> Z) w,
